@@ -282,3 +282,22 @@ def tx_same(t, t2, pos, named_other):
         if not (t["act"] == "Split" and want == "default" and not named_other and t2["af"][0] == "__global__"):
             return "affiliate"
     return None
+
+
+def tx_from_json(o):
+    """inverse of j_tx (input side: the affiliate is a spelling)"""
+    t = {"sec": o["sec"], "td": tuple(o["td"]), "sd": tuple(o["sd"]), "memo": o["memo"], "af": o["af"],
+         "ri": o["ri"], "act": o["act"]}
+    for k in ("sh", "aps", "com"):
+        if k in o:
+            t[k] = jd(o[k])
+    if "cr" in o:
+        t["cr"] = jcar(o["cr"])
+    if o["act"] in ("Buy", "Sell"):
+        t["ccr"] = jcar(o.get("ccr"))
+    if o["act"] == "Sell":
+        t["sfl"] = None if o.get("sfl") is None else (jd(o["sfl"][0]), bool(o["sfl"][1]))
+    if o["act"] == "Split":
+        r = o["ratio"]
+        t["ratio"] = (jd(r[0]), jd(r[1]), bool(r[2]))
+    return t
